@@ -11,12 +11,13 @@ Local Open Scope N_scope.
 
 Lemma glyph_width_cases o gid : (exists w, glyph_width o gid = Ok w) \/ glyph_width o gid = Panic.
 Proof.
-  unfold glyph_width. destruct o as [[w|]|w]; try (left; eexists; reflexivity);
+  unfold glyph_width. destruct o as [n [w|]|w]; try (left; eexists; reflexivity);
     destruct (nth_error w (N.to_nat gid)); eauto.
 Qed.
 
 Definition set_width_of (o : outlines) (gdef : option (list (N * N))) (g : ginfo) : ginfo :=
-  if is_mark gdef (g_gid g) then g
+  if num_glyphs o <=? g_gid g then g
+  else if is_mark gdef (g_gid g) then g
   else mkG (g_gid g) (g_text g) (g_xoff g) (g_yoff g)
            (match glyph_width o (g_gid g) with Ok w => w | _ => 0%Z end).
 
@@ -27,6 +28,7 @@ Proof.
   induction seq as [|g rest IH]; intros Hex; cbn [set_widths map]; [reflexivity|].
   rewrite IH by (intros g' Hg'; apply Hex; right; exact Hg').
   unfold set_width_of. specialize (Hex g (or_introl eq_refl)). unfold S_advance in Hex.
+  destruct (num_glyphs o <=? g_gid g); cbn [obind]; [reflexivity|].
   destruct (is_mark gdef (g_gid g)); cbn [obind]; [reflexivity|].
   destruct (glyph_width o (g_gid g)); cbn [obind]; try reflexivity; congruence.
 Qed.
@@ -37,11 +39,14 @@ Lemma set_widths_panic o gdef seq :
 Proof.
   induction seq as [|g rest IH]; intros (g0 & Hin & Hn); [destruct Hin|].
   cbn [set_widths]. unfold S_advance in Hn.
+  destruct (num_glyphs o <=? g_gid g) eqn:En; cbn [obind].
+  { destruct Hin as [<-|Hin]; [rewrite En in Hn; discriminate|].
+    rewrite IH by (exists g0; split; [exact Hin|unfold S_advance; exact Hn]). reflexivity. }
   destruct (is_mark gdef (g_gid g)) eqn:Em; cbn [obind].
-  - destruct Hin as [<-|Hin]; [rewrite Em in Hn; discriminate|].
+  - destruct Hin as [<-|Hin]; [rewrite En, Em in Hn; discriminate|].
     rewrite IH by (exists g0; split; [exact Hin|unfold S_advance; exact Hn]). reflexivity.
   - destruct (glyph_width_cases o (g_gid g)) as [[w Hw]|Hp]; rewrite ?Hw, ?Hp; cbn [obind]; [|reflexivity].
-    destruct Hin as [<-|Hin]; [rewrite Em, Hw in Hn; discriminate|].
+    destruct Hin as [<-|Hin]; [rewrite En, Em, Hw in Hn; discriminate|].
     rewrite IH by (exists g0; split; [exact Hin|unfold S_advance; exact Hn]). reflexivity.
 Qed.
 
@@ -110,6 +115,7 @@ Lemma set_width_of_seq0 cm o gdef s :
 Proof.
   unfold seq0, S_identity. rewrite map_map. apply map_ext. intros r.
   unfold set_width_of, S_identity_glyph, S_advance. cbn [g_gid g_text g_xoff g_yoff g_adv].
+  destruct (num_glyphs o <=? cmap_lookup cm r); [reflexivity|].
   destruct (is_mark gdef (cmap_lookup cm r)); [reflexivity|].
   destruct (glyph_width o (cmap_lookup cm r)); reflexivity.
 Qed.
